@@ -191,6 +191,13 @@ def flux_mech(cls, vw, tag="", m=None):
             # hybr reported failure; the result was accepted by the absolute criterion
             # sum(fun^2) < 1e-6 although the equations themselves are O(v^2)
             return "matching-accepted-on-absolute-residual"
+        if m.get("last_hybr_converged") is True and m["success_flag"] and vw < 0.05:
+            # hybr itself reported convergence (its step test, xtol), but the residual of
+            # the code's own equations (each O(v_w^2), multiplied by c >= 36) is of the
+            # order of the equations themselves: a false convergence at a slow wall
+            rel = math.sqrt(max(m.get("last_hybr_sumsq") or 0.0, 0.0)) / (36 * vw * vw)
+            if rel > 1e-2:
+                return "matching-hybr-false-convergence-at-slow-wall"
     return f"{tag}flux-mismatch-{cls}"
 
 
